@@ -65,6 +65,17 @@ class FaultEngine:
                         action = (name,)
                     else:
                         action = (name, arg)
+            elif name == "broker_failover" and arg[0] in ("serving", "serving_after"):
+                # the broker serving this request dies: before looking at it, or after applying
+                # it and before answering
+                if arg[0] == "serving":
+                    self._apply_env(name, [broker.node_id, arg[1]])
+                else:
+                    if action is None:
+                        action = ("lose_response",)
+                    cl = self.world.cluster
+                    self.world.later(max(2 * cl.service_time, 0.001), self._apply_env, name,
+                                     [broker.node_id, arg[1]])
             else:
                 self._apply_env(name, arg)
         return action
@@ -85,7 +96,7 @@ class FaultEngine:
         now = w.now()
         if name == "leader_move":
             topic, idx, node = arg
-            if node in cl.brokers:
+            if node in cl.brokers and cl.brokers[node].up:  # (nobody elects a dead broker)
                 cl.move_leader(topic, idx, node)
                 w.count_fault(name)
         elif name == "leader_unavailable":
@@ -108,6 +119,40 @@ class FaultEngine:
                 br.go_down()
                 w.later(d, br.go_up)
                 w.count_fault(name, now + d)
+        elif name == "broker_failover":
+            # a broker dies: connections reset, it stays away for d seconds, and every role it
+            # had (partition leader, group / transaction coordinator) is taken over by another
+            # broker for good (with one broker this is a plain outage)
+            node, d = arg
+            br = cl.brokers.get(node)
+            if br is not None and br.up:
+                others = [n for n in sorted(cl.brokers) if n != node and cl.brokers[n].up]
+                if d > 1000 and (not others or getattr(cl, "perma_dead", 0) >= len(cl.brokers) - 1):
+                    d = 3.0  # (one broker at least survives)
+                if d > 1000:
+                    cl.perma_dead = getattr(cl, "perma_dead", 0) + 1
+                if not others:
+                    # nobody left to take over: a total outage, kept short (clients poll the
+                    # cluster for metadata without backoff all the while)
+                    d = min(d, 1.0)
+                br.go_down()
+                w.later(d, br.go_up)
+                if others:
+                    pick = lambda *k: others[int(w.rng.next("failover", *k) * len(others))]  # noqa: E731
+                    for (ctype, key), cur in sorted(cl.coordinators.items(), key=repr):
+                        if cur == node:
+                            new = pick(ctype, key)
+                            cl.coordinators[(ctype, key)] = new
+                            w.log.add(now, "coordinator_move", ctype, key, cur, new, True)
+                            if ctype == 0 and cl.groups is not None:
+                                cl.groups.on_coordinator_move(key, True)
+                    for tname in sorted(cl.topics):
+                        for part in cl.topics[tname].partitions:
+                            if part.leader == node:
+                                cl.move_leader(tname, part.index, pick(tname, part.index))
+                # once another broker has taken the roles over the cluster is whole again: how
+                # long the dead one stays away no longer matters to anybody's progress
+                w.count_fault(name, now if (others and d > 1000) else now + d)
         elif name == "blackhole":
             node, d = arg
             br = cl.brokers.get(node)
@@ -120,7 +165,7 @@ class FaultEngine:
         elif name == "coordinator_move":
             ctype, key, keep = arg
             cur = cl.coordinator_for(ctype, key)
-            nodes = [n for n in sorted(cl.brokers) if n != cur]
+            nodes = [n for n in sorted(cl.brokers) if n != cur and cl.brokers[n].up]
             if nodes:
                 new = nodes[int(w.rng.next("coordmove") * len(nodes))]
                 cl.coordinators[(ctype, key)] = new
